@@ -25,7 +25,7 @@ const SWITCHES: [(u32, &str); 7] = [
 
 /// Trigger family: X op Y shapes with related / unrelated first sets, leading
 /// literals / classes / anchors, fixed-count repeats, long minimum lengths.
-fn triggers() -> Vec<String> {
+pub fn triggers() -> Vec<String> {
     let xs = ["a", "b", "A", "1", ".", "[ab]", "[^a]", "\\d", "\\s", "[a-c]", "\\n"];
     let ys = ["a", "b", "A", "1", ".", "[ab]", "[^a]", "\\d", "^", "$", "\\n", "(a|b)", "ab"];
     let qs = ["*", "+", "?", "{2}", "{1,2}", "*?", "+?", "{2,}"];
@@ -41,6 +41,17 @@ fn triggers() -> Vec<String> {
     for lead in ["a", "ab", "aba", "[ab]", "\\d", "^", "^a", "^[ab]", "(?:^a)", "(^a)", "^(a)"] {
         for rest in ["", "b", "b*", "(?:a|b)c{2}", "a{3}", "b{2,3}", "(?:a|b)(?:a|b)b{2}", ".{3}b{2}", "(b+)", "$", "\\n^a"] {
             v.push(format!("{}{}", lead, rest));
+        }
+    }
+    // a repeat followed by a term that can match empty, then something that
+    // overlaps with the repeated character
+    for x in ["a", "[ab]", ".", "\\d"] {
+        for q in ["*", "+", "?", "{1,2}", "*?"] {
+            for y in ["(?:b?|c)", "(b?)", "(?:b|)", "(?:^|b)", "(b*)", "(?:b*|c)", "(?:(?:b|cc)*|d)", "(?:$|b)", "(?:)", "()"] {
+                for z in ["a", "1", "[ab]", "$"] {
+                    v.push(format!("{}{}{}{}", x, q, y, z));
+                }
+            }
         }
     }
     for n in 1..=5 {
